@@ -15,6 +15,7 @@ from connectome.interface.edges import Function  # noqa
 
 KINDS = ['inv', 'inv', 'inv', 'inherit_all', 'inherit_list', 'fwd_only', 'cache', 'inv_noparam']
 NAMES = {}
+BACK = ['y', 'w']
 
 
 def named(name):
@@ -28,19 +29,57 @@ def named(name):
     return NAMES[name]
 
 
-def make(kind, i):
+def simple(kind, i):
+    """the six layer kinds of the first version, as generic descriptions"""
+    d = {'id': i, 'fwd': 'none', 'defs': [], 'inh': [], 'cache': False, 'kind': kind}
     if kind == 'inv':
-        return Transform(_p=Function(named(f'P{i}'), 'x'), x=Function(named(f'F{i}'), 'x', '_p'),
-                         y=inverse(Function(named(f'I{i}'), 'y', Parameter('_p'))))
-    if kind == 'inv_noparam':
-        return Transform(x=Function(named(f'F{i}'), 'x'), y=inverse(Function(named(f'I{i}'), 'y')))
-    if kind == 'inherit_all':
-        return Transform(__inherit__=True)
-    if kind == 'inherit_list':
-        return Transform(__inherit__=['x', 'y'])
-    if kind == 'fwd_only':
-        return Transform(x=Function(named(f'F{i}'), 'x'))
-    return CacheToRam()
+        d.update(fwd='def_p', defs=[{'out': 'y', 'fn': f'I{i}', 'args': ['y'], 'param': True}])
+    elif kind == 'inv_noparam':
+        d.update(fwd='def', defs=[{'out': 'y', 'fn': f'I{i}', 'args': ['y'], 'param': False}])
+    elif kind == 'inherit_all':
+        d.update(fwd='inherit', inh='all')
+    elif kind == 'inherit_list':
+        d.update(fwd='inherit', inh=['x', 'y'])
+    elif kind == 'fwd_only':
+        d.update(fwd='def')
+    else:
+        d.update(cache=True, inh='all')
+    return d
+
+
+def generic(rnd, i):
+    """any forward part, @inverse fields over y and w with one or two backward arguments, any inherit set"""
+    d = {'id': i, 'cache': False, 'kind': 'generic'}
+    d['fwd'] = rnd.choice(['def_p', 'def', 'def', 'inherit', 'inherit', 'none'] if rnd.random() < 0.15 else ['def_p', 'def', 'inherit'])
+    outs = rnd.sample(BACK, rnd.choice([0, 1, 1, 2, 2]))
+    d['defs'] = []
+    for o in outs:
+        args = rnd.choice([[o], [o], ['y', 'w'], ['w', 'y'], [BACK[1 - BACK.index(o)]]])
+        d['defs'].append({'out': o, 'fn': f'I{o}{i}', 'args': args, 'param': rnd.random() < 0.5})
+    if rnd.random() < 0.2:
+        d['inh'] = 'all'
+    else:
+        pool = ['y', 'w'] + ([] if d['fwd'] in ('def', 'def_p') else ['x'])
+        d['inh'] = sorted(n for n in pool if rnd.random() < 0.55)
+        if d['fwd'] == 'inherit' and 'x' not in d['inh'] and rnd.random() < 0.85:
+            d['inh'] = sorted(d['inh'] + ['x'])
+    return d
+
+
+def make(d):
+    if d['cache']:
+        return CacheToRam()
+    i = d['id']
+    kw = {}
+    if d['fwd'] == 'def_p' or any(x['param'] for x in d['defs']):
+        kw['_p'] = Function(named(f'P{i}'), 'x')
+    if d['fwd'] == 'def_p':
+        kw['x'] = Function(named(f'F{i}'), 'x', '_p')
+    elif d['fwd'] == 'def':
+        kw['x'] = Function(named(f'F{i}'), 'x')
+    for x in d['defs']:
+        kw[x['out']] = inverse(Function(named(x['fn']), *x['args'], *([Parameter('_p')] if x['param'] else [])))
+    return Transform(**kw, __inherit__=True if d['inh'] == 'all' else list(d['inh']))
 
 
 def attempt(fn):
@@ -64,16 +103,44 @@ def main():
     cases = []
     for _ in range(a.n):
         n = rnd.randint(1, 6)
-        kinds = [rnd.choice(KINDS) for _ in range(n)]
-        if kinds[0] == 'cache':
-            kinds[0] = 'inv'
-        objs = [make(k, i) for i, k in enumerate(kinds)]
-        ds = objs[0] if n == 1 else Chain(*objs)
-        f = named('f')
-        rec = {'kinds': kinds}
-        rec['decorate'] = attempt(lambda: ds._decorate('x', 'y')(f)('x0'))
-        rec['wrap'] = attempt(lambda: ds._wrap(f, 'x', 'y')('x0'))
-        rec['loopback'] = attempt(lambda: ds._loopback(f, 'x', 'y').y('x0'))
+        if rnd.random() < 0.4:
+            layers = [simple(rnd.choice(KINDS), i) for i in range(n)]
+            if layers[0]['cache']:
+                layers[0] = simple('inv', 0)
+            outs, final = ['y'], ['y']
+        else:
+            layers = [generic(rnd, i) if rnd.random() < 0.85 else simple(rnd.choice(KINDS), i) for i in range(n)]
+            if layers[0]['cache']:
+                layers[0] = generic(rnd, 0)
+            outs = rnd.choice([['y'], ['y', 'w'], ['y', 'w'], ['w', 'y'], ['w']])
+            final = rnd.choice([outs, outs, [rnd.choice(outs)]])
+        rec = {'layers': layers, 'outs': outs, 'final': final}
+        try:
+            objs = [make(d) for d in layers]
+            ds = objs[0] if n == 1 else Chain(*objs)
+        except BaseException as e:  # noqa
+            rec['build_error'] = f'{type(e).__name__}: {e}'[:200]
+            cases.append(rec)
+            continue
+        fs = [named('f_' + o) for o in outs]
+        single_out = len(outs) == 1 and rnd.random() < 0.7
+        single_final = len(final) == 1 and rnd.random() < 0.7
+        o_arg = outs[0] if single_out else list(outs)
+        f_arg = final[0] if single_final else list(final)
+        rec['single'] = [single_out, single_final]
+
+        def f(x, fs=fs, single_out=single_out):
+            return fs[0](x) if single_out else tuple(g(x) for g in fs)
+        f.__name__ = 'f'
+
+        def norm(r, single_final=single_final):
+            if 'val' in r:
+                v = r['val']
+                r = dict(r, val=[v] if single_final else v['t'])
+            return r
+        rec['decorate'] = norm(attempt(lambda: ds._decorate('x', o_arg, f_arg)(f)('x0')))
+        rec['wrap'] = norm(attempt(lambda: ds._wrap(f, 'x', o_arg, f_arg)('x0')))
+        rec['loopback'] = norm(attempt(lambda: ds._loopback(f, 'x', o_arg)._compile(f_arg)('x0')))
         cases.append(rec)
     dump({'cases': cases}, a.out)
 
